@@ -23,6 +23,16 @@ D  every dialect (sqlite, postgresql, mysql, mariadb, mssql, oracle; qmark / for
    ``(sql, params)`` stream of a recording fake DBAPI: ``sql % params`` must succeed and
    contain the correctly quoted name.
 
+N  name-normalizing dialects (oracle drivers, and DefaultDialect with
+   ``requires_name_normalize``): for stored names S over every reserved word of that dialect
+   in four case patterns, every illegal initial character, and the random alphabet with
+   case-shifted copies: ``quote(normalize_name(S))`` must *address* S under the backend's
+   folding rule (quoted = verbatim, bare = upper-cased), ``denormalize_name`` must invert
+   ``normalize_name``, and for names as a user defines them (str, quoted_name quote
+   True/None, quote False for lower-case words) ``denormalize_name(u)`` must be the object
+   ``quote(u)`` addresses.  Name *equality* after reflection is not demanded here: an
+   all-upper-case stored name reflects lower-cased by documented convention.
+
 Guards (what keeps the oracle from demanding more than the property):
   * names SQLite cannot represent or reserves are not generated: empty string, NUL,
     ``sqlite_`` prefix, schema names ``main`` / ``temp``; names are pairwise distinct
@@ -67,7 +77,7 @@ META = {
         "keywords_from_sqlite_c_api", "keywords_probed", "keywords_rejected_bare_by_parser",
         "keyword_roundtrips", "random_roundtrips", "names_reflected_equal", "raw_catalog_names_checked",
         "stmts_executed", "dialect_format_roundtrips", "lexer_decodes", "lexer_calibrations_on_sqlite",
-        "percent_stream_checks",
+        "percent_stream_checks", "normalize_roundtrips", "normalize_changed_name", "denormalize_vs_rendered_checks",
     ],
     "assumptions": [
         "sqlite3_keyword_name of the linked libsqlite3 (same version string as the sqlite3 module) lists the parser's keywords",
@@ -703,10 +713,132 @@ def percent_stream(st):
             eng.dispose()
 
 
+# --------------------------------------------------------------------------
+# part N: name-normalizing backends (requires_name_normalize): normalize / denormalize
+# --------------------------------------------------------------------------
+def normalizing_dialects(ctx):
+    """(label, dialect, lexer family) of every bundled dialect that normalizes names, plus
+    the DefaultDialect configured as such (what a third-party upper-folding backend gets)."""
+    from sqlalchemy.engine import default, make_url
+
+    out = []
+    for fam, url in DIALECT_URLS + [("oracle", "oracle+cx_oracle://u:p@h/?service_name=x")]:
+        try:
+            d = make_url(url).get_dialect()()
+        except Exception:
+            continue
+        if getattr(d, "requires_name_normalize", False):
+            out.append((url.split(":")[0], d, fam))
+    g = default.DefaultDialect()
+    g.requires_name_normalize = True
+    out.append(("default+normalize", g, "postgresql"))   # "..." with doubled quote
+    return out
+
+
+def part_normalize(st):
+    """Model of the backend: a quoted token addresses the name verbatim, a bare token
+    addresses its upper-cased form (Oracle / SQL standard folding).
+
+    stored  S --normalize_name--> n --quote--> text : text must address S again, and
+            denormalize_name(n) must be S (catalog lookups go through it);
+    defined u --quote--> text (addresses S') : denormalize_name(u) must be S'.
+    """
+    from sqlalchemy import quoted_name
+    from vf.gen import names_ge
+    from vf.mon import sqltok_ge
+
+    ctx = st.ctx
+    rng = ctx.rng
+
+    def addressed(text, fam):
+        toks = sqltok_ge.split_dotted(text, fam)
+        if len(toks) != 1:
+            raise sqltok_ge.LexError(f"{len(toks)} tokens")
+        tok, quoted = toks[0]
+        return tok if quoted else tok.upper()
+
+    for label, d, fam in normalizing_dialects(ctx):
+        prep = d.identifier_preparer
+        words = sorted(w for w in prep.reserved_words if WORD.fullmatch(w.lower()))
+        initials = sorted(prep.illegal_initial_characters)
+
+        def variants(w):
+            yield w.lower()
+            yield w.upper()
+            yield w.capitalize()
+            yield w[:1].lower() + w[1:].upper()
+
+        names = []
+        for i, w in enumerate(words):                 # every reserved word, every case
+            if ctx.mine(i):
+                names.extend(variants(w))
+        for i, ch in enumerate(initials):             # illegal initial characters
+            if ctx.mine(i):
+                for body in ("abc", "ABC", "Abc", "a b", "A_1", ""):
+                    names.append(ch + body)
+        nrand = ctx.pick({"quick": 250, "thorough": 6000})
+        for k in range(nrand):                        # the hostile alphabet, plus case-shifted copies
+            x = names_ge.rand_name(rng, hostile=rng.choice([0.1, 0.45]), maxlen=8)
+            names.append(x)
+            names.append(rng.choice([x.upper(), x.lower(), rng.choice(initials) + x.upper(), rng.choice(words).upper() + ("" if k % 3 else x)]))
+        for S in names:
+            if not ctx.budget_ok():
+                break
+            if not S or "\x00" in S or (fam == "oracle" and '"' in S):
+                continue  # not representable on the backend
+            desc = {"dialect": label, "stored": S}
+            # ---- reflection direction
+            n = d.normalize_name(S)
+            text = prep.quote(n)
+            den = d.denormalize_name(n)
+            try:
+                back = addressed(text, fam)
+            except sqltok_ge.LexError as e:
+                back = f"<{e}>"
+            ctx.count("normalize_roundtrips")
+            if isinstance(n, str) and n != S:
+                ctx.count("normalize_changed_name")
+            if back != S:
+                if S.endswith("\n") and text == n:
+                    mech = "legal-characters-regex-accepts-trailing-newline"
+                else:
+                    mech = "normalized-name-addresses-different-object"
+                ctx.violation(mech, f"{label}: stored {S!r} is reflected as {n!r}, rendered {text!r}, which addresses {back!r}",
+                              dict(desc, normalized=repr(n), rendered=text, addresses=back))
+            elif den != S:
+                ctx.violation("denormalize-does-not-invert-normalize", f"{label}: denormalize_name(normalize_name({S!r})) = {den!r} (normalized {n!r})",
+                              dict(desc, normalized=repr(n), denormalized=den))
+            # ---- definition direction: plain str, quote=True, quote=None; quote=False only for
+            # an all-lower-case word that needs no quotes ("never quote" on a mixed-case or
+            # reserved name is a contradiction in terms: the bare text is not that object / not SQL)
+            for u in (S, quoted_name(S, True), quoted_name(S, None)) + ((quoted_name(S, False),) if S == S.lower() and WORD.fullmatch(S) and not prep._requires_quotes(S) else ()):
+                try:
+                    text = prep.quote(u)
+                    toks = sqltok_ge.split_dotted(text, fam)
+                except sqltok_ge.LexError:
+                    continue      # formatting faults are judged by part D
+                if len(toks) != 1 or (not toks[0][1] and not toks[0][0].isascii()):
+                    continue      # bare non-ASCII: folding is locale dependent on the server
+                target = toks[0][0] if toks[0][1] else toks[0][0].upper()
+                ctx.count("denormalize_vs_rendered_checks")
+                den = d.denormalize_name(u)
+                if den != target:
+                    if S.endswith("\n") and text == S:
+                        continue  # trailing-newline defect, reported above / by part D
+                    ctx.violation("denormalize-differs-from-what-rendered-name-addresses",
+                                  f"{label}: {u!r} (quote={getattr(u, 'quote', None)!r}) renders {text!r} -> object {target!r}, but denormalize_name gives {den!r}",
+                                  dict(desc, quote=getattr(u, "quote", None), rendered=text, denormalized=den))
+            ctx.case(["normalize", label, S], nontrivial=S.lower() in prep.reserved_words or S[0] in prep.illegal_initial_characters or S != S.lower())
+        if ctx.shard == 0:
+            ctx.sample({"dialect": label, "stored": "SELECT", "normalized": repr(d.normalize_name("SELECT")),
+                        "rendered": prep.quote(d.normalize_name("SELECT"))})
+
+
 def run(ctx):
     import sqlalchemy as sa
 
     st = Ctxt(ctx, sa)
     part_dialects(st)   # pure string work first: never starved by the executed parts
+    part_normalize(st)
     part_keywords(st)
     part_random(st)
